@@ -231,6 +231,7 @@ export function makeRuntime() {
       ev('mergeDefaults', { raw, defaults, res });
       return res;
     },
+    defineAsyncComponent(source, second) { ev('defineAsyncComponent', { argc: arguments.length, source, second }); return { __asyncLoader: source }; },
     normalizeClass, normalizeStyle,
   };
   for (const n of OTHER_VUE_EXPORTS) {
